@@ -4,7 +4,7 @@ from fractions import Fraction
 import z3
 
 from .vtypes import (TInt, TReal, TBool, TStr, TNone, TDate, TDelta, TJson, TRef, TEnum, TList, TSet, TTuple,
-                     TDict, TOpt)
+                     TDict, TOpt, TRecord)
 from .core import (Val, Unsupported, TPoison, T_EMPTY, T_LAMBDA, T_CLASS, T_BUILTIN, T_METHOD, T_FUNC,
                    T_MODULE, T_ITER, SPECIAL_KINDS, MUTATORS, zbool, zand, zor, znot, is_true, is_false, State)
 
@@ -98,6 +98,13 @@ class ExprMixin:
         raise Unsupported("attribute %s on %r" % (attr, base.ty), node)
 
     # ------------------------------------------------------------------ operators
+    def unwrap_opt_num(self, v, st, node):
+        if v.ty.kind == "Opt" and v.ty.t.kind in ("Int", "Real", "Delta", "Enum"):
+            if st is not None:
+                self.oblige("safe", "none-in-arithmetic", z3.Not(self.opt_is_none(v)), st, node)
+            return self.opt_val(v)
+        return v
+
     def num_unify(self, a, b, node):
         for v in (a, b):
             if v.ty.kind not in ("Int", "Real", "Enum", "Bool", "Delta"):
@@ -113,7 +120,10 @@ class ExprMixin:
         return self.binop(node.op, a, b, st, node)
 
     def binop(self, op, a, b, st, node=None):
+        a, b = self.unwrap_opt_num(a, st, node), self.unwrap_opt_num(b, st, node)
         ka, kb = a.ty.kind, b.ty.kind
+        if ka == "Str" and kb == "Str" and isinstance(op, ast.Add):
+            return Val(TStr, self.uf("str_concat", self.S.Str, self.S.Str, self.S.Str)(a.z, b.z))
         # datetime arithmetic (trusted, DESIGN 2.6)
         if ka == "Date" and kb in ("Delta", "Real", "Int"):
             d = self.coerce(b, TReal, node).z if kb == "Int" else b.z
@@ -128,7 +138,7 @@ class ExprMixin:
         if (ka == "Delta" or kb == "Delta"):
             if isinstance(op, ast.Mult):
                 x, y, _ = self.num_unify(a, b, node)
-                return Val(TDelta, x.z * y.z)
+                return Val(TDelta, self.mul(x.z, y.z))
             if isinstance(op, ast.Div) and ka == "Delta" and kb == "Delta":
                 self.oblige("safe", "div-zero", b.z != 0, st, node)
                 return Val(TReal, a.z / b.z)
@@ -143,7 +153,7 @@ class ExprMixin:
         if isinstance(op, ast.Sub):
             return Val(t, x.z - y.z)
         if isinstance(op, ast.Mult):
-            return Val(t, x.z * y.z)
+            return Val(t, self.mul(x.z, y.z))
         if isinstance(op, ast.Div):
             xr, yr = self.coerce(x, TReal), self.coerce(y, TReal)
             self.oblige("safe", "div-zero", yr.z != 0, st, node)
@@ -155,6 +165,24 @@ class ExprMixin:
             self.oblige("safe", "div-zero", y.z != 0, st, node)
             return Val(TInt, x.z % y.z)
         raise Unsupported("binary operator %s" % type(op).__name__, node)
+
+    def mul(self, x, y):
+        """products of two non-constant terms stay uninterpreted (commutative, 0 and 1 absorbing/neutral):
+        keeps every obligation in linear arithmetic (DESIGN 6/C02: `w*f` products are opaque per pair)"""
+        xs, ys = z3.simplify(x), z3.simplify(y)
+        if z3.is_rational_value(xs) or z3.is_int_value(xs) or z3.is_rational_value(ys) or z3.is_int_value(ys):
+            return x * y
+        if x.sort() != y.sort():
+            x = z3.ToReal(x) if z3.is_int(x) else x
+            y = z3.ToReal(y) if z3.is_int(y) else y
+        f = self.uf("nl_mul_%s" % x.sort(), x.sort(), y.sort(), x.sort())
+        if ("nl_mul_axioms_%s" % x.sort()) not in self.ghost:
+            self.ghost["nl_mul_axioms_%s" % x.sort()] = True
+            a, b = z3.Consts("a!m b!m", x.sort())
+            self.assumptions.append(z3.ForAll([a, b], f(a, b) == f(b, a), patterns=[f(a, b)]))
+            self.assumptions.append(z3.ForAll([a], z3.And(f(a, 0) == 0, f(a, 1) == a), patterns=[f(a, 0), f(a, 1)]))
+            self.trusted.add("products of two symbolic numbers are an uninterpreted commutative function (no non-linear reasoning)")
+        return f(x, y)
 
     def date_add(self, d, x):
         f = self.uf("date_add", self.S.Date, z3.RealSort(), self.S.Date)
@@ -329,12 +357,24 @@ class ExprMixin:
     def ev_Dict(self, node, st):
         if not node.keys:
             return Val(TSpecialEmptyDict, None)
-        raise Unsupported("dict literal", node)
+        if all(isinstance(k, ast.Constant) and isinstance(k.value, str) for k in node.keys):
+            names = [k.value for k in node.keys]
+            vals = [self.ev(v, st) for v in node.values]
+            ty = TRecord(names, [v.ty for v in vals])
+            return Val(ty, self.S.sort(ty).mk(*[v.z for v in vals]))
+        raise Unsupported("dict literal with non-constant keys", node)
 
     def ev_Subscript(self, node, st):
         base = self.ev(node.value, st)
         if isinstance(node.slice, ast.Slice):
             return self.slice_list(base, node.slice, st, node)
+        if base.ty.kind == "Record":
+            idx = node.slice
+            if isinstance(idx, ast.Constant) and idx.value in base.ty.names:
+                i = base.ty.names.index(idx.value)
+                return Val(base.ty.elems[i], self.S.sort(base.ty).accessor(0, i)(base.z))
+            self.oblige("safe", "record-key", False, st, node)
+            raise Unsupported("record key", node)
         if base.ty.kind == "Tuple":
             idx = node.slice
             if isinstance(idx, ast.Constant) and isinstance(idx.value, int):
